@@ -2,11 +2,17 @@
 
     Proved: synthesis is total - no string whatsoever makes [RR::from_string] panic in the model (every
     partial operation of the grammar - the hex digest decoding, the checked decimal folds, the escape
-    decoding - returns a parse error instead), and the name encodings the builders append are at most
-    253 bytes.  Completeness (grammar text => RFC 1035 wire form) and rejection of the excluded texts are
-    decided each run by the correspondence and an independent encoder (see DESIGN.md). *)
+    decoding - returns a parse error instead); anything it does return is a well-formed record
+    (C13_result_well_formed): an owner name encoded label by label from well-formed text labels within
+    253 bytes, type, class IN, TTL, a data length equal to the length of the data that follows, the
+    data; and the data each builder writes is characterised - names label by label for NS / CNAME /
+    PTR / MX / SOA (C13_name_rr, C13_mx, C13_soa), TXT as character-strings that concatenate to the
+    text, every one but the last of exactly 255 bytes and none empty (C13_txt).
+    Not covered by a theorem: that the grammar accepts exactly the supported texts and hands the
+    right fields to the builders (decided each run by the correspondence and an independent
+    encoder, see DESIGN.md). *)
 From DV Require Import Model.Base Model.Parser Model.Header Model.Readers Model.Uncompress Model.Mutate
-  Model.Gen Model.Text Proofs.Hoare Proofs.SynthTotal.
+  Model.Gen Model.Text Spec.NameSpec Proofs.Hoare Proofs.SynthTotal Proofs.NameText Proofs.SynthShape.
 
 Theorem C13_synth_total : forall s : bytes, nopanic (rr_from_string s).
 Proof. exact synth_total. Qed.
@@ -16,6 +22,33 @@ Theorem C13_synth_result_cases : forall s : bytes,
   (exists rr, rr_from_string s = Ok rr) \/ (exists e, rr_from_string s = Err e).
 Proof. intros s. apply nopanic_cases, synth_total. Qed.
 Print Assumptions C13_synth_result_cases.
+
+Theorem C13_result_well_formed : forall s rr, rr_from_string s = Ok rr -> rr_shape rr.
+Proof. exact synth_result_shape. Qed.
+Print Assumptions C13_result_well_formed.
+
+Theorem C13_txt : forall n ttl txt rr, build_txt n ttl txt = Ok rr ->
+  exists cs, concat cs = txt /\ txt_chunks cs /\ rr_shape_with rr TYPE_TXT (strings_wire cs).
+Proof. exact build_txt_shape. Qed.
+Print Assumptions C13_txt.
+
+Theorem C13_name_rr : forall t n ttl tg rr, build_name_rr t n ttl tg = Ok rr ->
+  exists ls, Forall tlabel_ok ls /\ rr_shape_with rr t (wire_of_labels ls).
+Proof. exact build_name_rr_shape. Qed.
+Print Assumptions C13_name_rr.
+
+Theorem C13_mx : forall n ttl pref h rr, build_mx n ttl pref h = Ok rr ->
+  exists ls, Forall tlabel_ok ls /\ rr_shape_with rr TYPE_MX (be16_bytes pref ++ wire_of_labels ls).
+Proof. exact build_mx_shape. Qed.
+Print Assumptions C13_mx.
+
+Theorem C13_soa : forall n ttl a b ts refresh retry auth neg rr,
+  build_soa n ttl a b ts refresh retry auth neg = Ok rr ->
+  exists ls1 ls2, Forall tlabel_ok ls1 /\ Forall tlabel_ok ls2 /\
+    rr_shape_with rr TYPE_SOA (wire_of_labels ls1 ++ wire_of_labels ls2 ++ be32_bytes ts ++ be32_bytes refresh ++
+                               be32_bytes retry ++ be32_bytes auth ++ be32_bytes neg).
+Proof. exact build_soa_shape. Qed.
+Print Assumptions C13_soa.
 
 (** Non-vacuity: "a.b 60 IN A 1.2.3.4" and an odd-length digest. *)
 Example C13_sample_a :
